@@ -15,7 +15,7 @@ import (
 	"time"
 )
 
-var syCProgs = []string{"send-all-then-receive", "ping-pong", "concurrent", "early-half-close", "receive-only"}
+var syCProgs = []string{"send-all-then-receive", "ping-pong", "concurrent", "early-half-close", "receive-only", "receive-first"}
 
 // one stream of a C02 scenario
 type c02Stream struct {
@@ -73,6 +73,14 @@ func (s c02Stream) threads(slot int, rng *rand.Rand) [][]syCop {
 		}
 		a = append(a, syCop{Op: "close", Slot: slot})
 	case 4:
+	case 5: // wait for the handler's pushes before sending anything
+		for i := 0; i < s.H.N; i++ {
+			a = append(a, recv1())
+		}
+		for i := 0; i < s.N; i++ {
+			a = append(a, send(i))
+		}
+		a = append(a, syCop{Op: "close", Slot: slot})
 	}
 	// the terminal receive loop; its first iteration may park
 	if s.ParkR >= nrecv {
@@ -114,8 +122,21 @@ func genC02Stream(rng *rand.Rand, maxN int) c02Stream {
 			s.H = syHProg{J: 1, N: nb} // the natural server-streaming handler
 		}
 	}
+	if rng.Intn(6) == 0 { // a concurrent handler: receiver goroutine + sender
+		if rng.Intn(2) == 0 {
+			s.CProg, s.H = 5, syHProg{Conc: 1, N: nb}
+			if s.N > 5 {
+				s.N = 5
+			}
+		} else {
+			s.CProg, s.N, s.H = 4, 0, syHProg{Conc: 2, N: nb}
+		}
+		if s.Kind == 0 {
+			s.Kind = 2
+		}
+	}
 	s.H.Seed = seed
-	if rng.Intn(8) == 0 {
+	if rng.Intn(8) == 0 && s.H.Conc == 0 {
 		s.H.Code = 7 + rng.Intn(3) // a failing handler: the caller must not see EOF
 	}
 	switch rng.Intn(4) {
@@ -184,6 +205,9 @@ func runC02Lock(t *testing.T, cfg c02Cfg, streams []c02Stream, seed int64, choos
 		r := newSyRig(cfg.topo, cfg.byRef, true)
 		rng := rand.New(rand.NewSource(seed))
 		for k, s := range streams {
+			if s.H.Conc != 0 {
+				r.dumpWait = true
+			}
 			r.hprogs[int64(k)] = s.H
 			for _, p := range s.threads(k, rng) {
 				r.addThread(p)
@@ -487,6 +511,32 @@ func TestC02(t *testing.T) {
 			})
 			rec := recC02("c02-loop-parked", cfg, []c02Stream{s}, steps, complete, "mode:directed-yield")
 			sp.small(&rec)
+		}
+	}
+
+	// ---- A5. concurrent handlers (a receiver goroutine parked in RecvMsg while the main goroutine sends / returns):
+	// push-while-receiving (the caller waits for the n pushes before it sends m messages and half-closes) and
+	// return-while-receiving (the caller only receives: n pushes, then io.EOF). The receiver goroutine is stepped
+	// first (it is inside RecvMsg when the sender starts), then everything else in canonical order.
+	for kind := 1; kind < 3; kind++ {
+		for _, n := range []int{0, 1, 2} {
+			for conc := 1; conc <= 2; conc++ {
+				s := c02Stream{Kind: kind, N: n % 2, CProg: 5, ParkR: -1, ParkS: -1, H: syHProg{Conc: conc, N: n, Seed: int64(900 + kind*10 + n)}}
+				if conc == 2 {
+					s.CProg, s.N = 4, 0
+				}
+				cfg := c02Cfg{0, (kind+n+conc)%2 == 1}
+				steps, complete := runC02Lock(t, cfg, []c02Stream{s}, int64(8000+kind*100+n*10+conc), func(step int, en []syAct) int {
+					for i, a := range en {
+						if a.K == 'G' && a.N >= 1000 { // the receiver goroutine enters RecvMsg as soon as it can
+							return i
+						}
+					}
+					return 0
+				})
+				rec := recC02("c02-concurrent-handler", cfg, []c02Stream{s}, steps, complete, "mode:directed-concurrent-handler")
+				sp.small(&rec)
+			}
 		}
 	}
 
